@@ -42,10 +42,22 @@ func init() {
 	for _, x := range midlines(12.3, 15.1, 2) {
 		probeObjs = append(probeObjs, geojson.NewPoint(geometry.Point{X: x, Y: 0.61}))
 	}
+	// large circles whose disc is not covered by the rectangle of their polygon
+	// approximation (mid latitude, polar cap, across the antimeridian)
+	for _, c := range c08Circles {
+		circleProbes = append(circleProbes, geojson.NewCircle(geometry.Point{X: c[0], Y: c[1]}, c[2], 64))
+	}
 }
 
+// circleProbes are used with the circle-rim documents only (circle predicates are costly)
+var circleProbes []geojson.Object
+
+var c08Circles = [][3]float64{{10, 60, 500000}, {0, 85, 1000000}, {179, 0, 300000}}
+
 // answers renders every observable geometry answer of o.
-func answers(o geojson.Object) (s string) {
+func answers(o geojson.Object) (s string) { return answersWith(o, nil) }
+
+func answersWith(o geojson.Object, extra []geojson.Object) (s string) {
 	defer func() {
 		if r := recover(); r != nil {
 			s = fmt.Sprintf("panic: %v", r)
@@ -54,7 +66,7 @@ func answers(o geojson.Object) (s string) {
 	var sb strings.Builder
 	rc := o.Rect()
 	fmt.Fprintf(&sb, "rect=%s,%s,%s,%s empty=%v valid=%v n=%d|", fbits(rc.Min.X), fbits(rc.Min.Y), fbits(rc.Max.X), fbits(rc.Max.Y), o.Empty(), o.Valid(), o.NumPoints())
-	for _, p := range probeObjs {
+	for _, p := range append(probeObjs[:len(probeObjs):len(probeObjs)], extra...) {
 		b := func(v bool) byte {
 			if v {
 				return '1'
